@@ -34,6 +34,22 @@ def same_guard(ctx, chk, fn, floor):
 import props.anchors as anchors
 
 
+def data_before_placement(ctx, chk, rid):
+    """shared by C09 and C10: in write_with the copy of the old bytes and the write of the new ones precede
+    RegionMetadata::set_start and Layout::move_region (readers snapshot (start, len) under the metadata lock)."""
+    O = ctx.O
+    ww = O.body(WRITE_WITH)
+    ss = O.need_sites(ww, M(r"rawdb::region_metadata::RegionMetadata::set_start"), 1)
+    for a, what in ((M(r"rawdb::Database::copy"), "Database::copy (old bytes)"), (M(r"rawdb::Database::write"), "Database::write (new bytes)")):
+        for b, bl in ((M(r"rawdb::region_metadata::RegionMetadata::set_start"), "RegionMetadata::set_start"),
+                      (M(r"rawdb::layout::Layout::move_region"), "Layout::move_region")):
+            bad = O.precedes(ww, a, b)
+            chk.oblige("%s precedes(write_with: %s before %s)" % (rid, what, bl), not bad and bool(O.sites(ww, b)),
+                       key="%s|write_with|%s-before-%s" % (rid, what.split(" ")[0].split("::")[-1], bl.split("::")[-1]),
+                       msg="a region's new start must be published only after its bytes have been copied there: a reader "
+                           "that snapshots (start, len) in between reads bytes that are not the region's")
+
+
 def run(ctx, chk):
     O, P, L = ctx.O, ctx.P, ctx.L
     # A10.1
@@ -138,6 +154,11 @@ def run(ctx, chk):
                bool(pins) and cloned, key="A10.6|reader-pins-region",
                msg="a live Reader must keep its region referenced, otherwise the region can be removed and its extent "
                    "reused while the reader still returns bytes from it")
+    # A10.7 a relocated region's new placement is published only after its bytes are there
+    data_before_placement(ctx, chk, "A10.7")
+    # A10.8 = B12.2: compaction punches only under the locks that keep writers and allocators out
+    from props.c12 import punch_lock_rules
+    punch_lock_rules(ctx, chk, "A10.8")
     # A10.3 LAYOUT is not held at any call that reaches set_min_len
     smm = M(r"rawdb::Database::set_min_len", reach=True)
     n = 0
